@@ -282,7 +282,24 @@ func (c *VC) evalArgs(st *State, fn *types.Func, call *ast.CallExpr) ([]*Term, b
 			rv = c.eval(st, se.X)
 			if len(path) > 0 {
 				rv = c.fieldPath(st, rv, xt, path, se.Pos(), exprText(c.prog.fset, se))
-				c.unsupportedf(se.Pos(), "method call through embedded field")
+				// the promoted method's receiver is the embedded field: usable as it is when the field
+				// and the receiver agree on pointer-ness, dereferenced for a value receiver on an
+				// embedded pointer; taking the address of an embedded value is not modelled
+				et := xt
+				for _, idx := range path {
+					if p, ok := et.Underlying().(*types.Pointer); ok {
+						et = p.Elem()
+					}
+					et = et.Underlying().(*types.Struct).Field(idx).Type()
+				}
+				_, embIsPtr := et.Underlying().(*types.Pointer)
+				switch {
+				case embIsPtr == recvIsPtr:
+				case embIsPtr && !recvIsPtr:
+					rv = c.deref(st, rv, et.Underlying().(*types.Pointer).Elem(), se.Pos(), exprText(c.prog.fset, se.X))
+				default:
+					c.unsupportedf(se.Pos(), "method call through embedded field")
+				}
 			} else if !recvIsPtr && xIsPtr {
 				rv = c.deref(st, rv, xt.Underlying().(*types.Pointer).Elem(), se.Pos(), exprText(c.prog.fset, se.X))
 			}
@@ -346,8 +363,32 @@ func (c *VC) convert(st *State, arg ast.Expr, to types.Type, call *ast.CallExpr)
 			return c.convertInt(v, from, to)
 		}
 		if tb, ok2 := tu.(*types.Basic); ok2 && tb.Info()&types.IsString != 0 {
-			// string(rune)
-			return c.uf("string_of_rune", c.strSort(), c.convertInt(v, from, types.Typ[types.Int64]))
+			// string(rune): the UTF-8 encoding of the rune (U+FFFD for an invalid one): 1 to 4 bytes,
+			// one byte (the rune itself) exactly for runes below 0x80 (language specification)
+			rv := c.convertInt(v, from, types.Typ[types.Int64])
+			ss := c.strSort()
+			sv := mkCtor(ss, c.uf("string_of_rune_text", ss.Fields[0].Sort, rv), c.idxLit(0), c.uf("string_of_rune_len", c.idxSort(), rv))
+			if !c.noName && c.quantDepth == 0 {
+				key := "sr:" + sv.String()
+				if !c.specAxioms[key] {
+					c.specAxioms[key] = true
+					it := types.Typ[types.Int]
+					i64 := types.Typ[types.Int64]
+					u8 := types.Typ[types.Uint8]
+					ln := mkField(sv, "st_len")
+					ascii := mkAnd(c.cmp(token.LEQ, c.numLit(bigInt(0), i64), rv, i64), c.cmp(token.LSS, rv, c.numLit(bigInt(0x80), i64), i64))
+					c.addFact(tTrue, mkAnd(c.cmp(token.LEQ, c.idxLit(1), ln, it), c.cmp(token.LEQ, ln, c.idxLit(4), it)))
+					if c.mode == ModeInt {
+						c.addFact(tTrue, mkIte(ascii, mkAnd(mkEq(ln, c.idxLit(1)), mkEq(c.convertInt(c.strByte(sv, c.idxLit(0)), u8, i64), rv)),
+							mkAnd(c.cmp(token.LEQ, c.idxLit(2), ln, it),
+								c.cmp(token.GEQ, c.strByte(sv, c.idxLit(0)), c.numLit(bigInt(0x80), u8), u8),
+								c.cmp(token.GEQ, c.strByte(sv, c.idxLit(1)), c.numLit(bigInt(0x80), u8), u8),
+								mkImplies(c.cmp(token.LSS, c.idxLit(2), ln, it), c.cmp(token.GEQ, c.strByte(sv, c.idxLit(2)), c.numLit(bigInt(0x80), u8), u8)),
+								mkImplies(c.cmp(token.LSS, c.idxLit(3), ln, it), c.cmp(token.GEQ, c.strByte(sv, c.idxLit(3)), c.numLit(bigInt(0x80), u8), u8)))))
+					}
+				}
+			}
+			return sv
 		}
 	}
 	if _, ok := isFloat(fu); ok {
@@ -761,15 +802,15 @@ func (c *VC) intrinsic(st *State, fn *types.Func, call *ast.CallExpr) ([]*Term, 
 			bv := c.eval(st, call.Args[2])
 			u64 := types.Typ[types.Uint64]
 			u8 := types.Typ[types.Uint8]
-			sv := c.uf("pure_strconv_FormatUint", c.strSort(), v, bv)
+			ss := c.strSort()
+			sv := mkCtor(ss, c.uf("pure_strconv_FormatUint_text", ss.Fields[0].Sort, v, bv), c.idxLit(0), c.uf("pure_strconv_FormatUint_len", c.idxSort(), v, bv))
 			if !c.noName && c.quantDepth == 0 {
 				key := "fu:" + sv.String()
 				if !c.specAxioms[key] {
 					c.specAxioms[key] = true
 					c.assumptions["strconv.AppendUint/FormatUint: length and digit alphabet of the text (base 16) are taken from its documentation (assumed)"] = true
 					ln := mkField(sv, "st_len")
-					c.addFact(tTrue, mkAnd(c.cmp(token.LEQ, c.idxLit(1), ln, it), c.cmp(token.LEQ, ln, c.idxLit(64), it),
-						c.cmp(token.LEQ, c.idxLit(0), mkField(sv, "st_off"), it)))
+					c.addFact(tTrue, mkAnd(c.cmp(token.LEQ, c.idxLit(1), ln, it), c.cmp(token.LEQ, ln, c.idxLit(64), it)))
 					if bv.Val != nil && bv.Val.Int64() == 16 {
 						d := c.idxLit(16)
 						for k := 15; k >= 1; k-- {
@@ -777,6 +818,7 @@ func (c *VC) intrinsic(st *State, fn *types.Func, call *ast.CallExpr) ([]*Term, 
 						}
 						c.addFact(tTrue, mkEq(ln, d))
 						j := c.boundVar("j", c.idxSort())
+						c.varBounds[j.Op] = interval{bigInt(0), bigInt(64)}
 						b := c.strByte(sv, j)
 						isDigit := mkAnd(c.cmp(token.LEQ, c.numLit(bigInt('0'), u8), b, u8), c.cmp(token.LEQ, b, c.numLit(bigInt('9'), u8), u8))
 						isAF := mkAnd(c.cmp(token.LEQ, c.numLit(bigInt('a'), u8), b, u8), c.cmp(token.LEQ, b, c.numLit(bigInt('f'), u8), u8))
@@ -841,6 +883,17 @@ func (c *VC) intrinsic(st *State, fn *types.Func, call *ast.CallExpr) ([]*Term, 
 						}
 						c.addFact(tTrue, mkImplies(ok, mkAnd(c.cmp(token.LSS, c.idxLit(0), ln, it),
 							mkForall([]*Term{k}, mkImplies(mkAnd(c.cmp(token.LEQ, c.idxLit(0), k, it), c.cmp(token.LSS, k, ln, it)), hex)))))
+						// ground instances for the first positions (numeric escapes are short): index terms of the
+						// caller's slices rarely match the quantifier's trigger syntactically
+						for g := 0; g < 16; g++ {
+							gch := c.strByte(sv, c.idxLit(int64(g)))
+							grng := func(lo, hi byte) *Term { return mkAnd(c.cmp(token.LEQ, lit(lo), gch, u8), c.cmp(token.LEQ, gch, lit(hi), u8)) }
+							ghex := mkOr(grng('0', '9'), grng('a', 'f'), grng('A', 'F'))
+							if bv.Val.Int64() == 8 {
+								ghex = grng('0', '7')
+							}
+							c.addFact(tTrue, mkImplies(mkAnd(ok, c.cmp(token.LSS, c.idxLit(int64(g)), ln, it)), ghex))
+						}
 					}
 					if zv.Val != nil && zv.Val.Int64() > 0 && zv.Val.Int64() < 64 && c.mode == ModeInt {
 						c.addFact(tTrue, mkImplies(ok, c.cmp(token.LSS, v, c.numLit(new(big.Int).Lsh(bigInt(1), uint(zv.Val.Int64())), u64), u64)))
@@ -1322,7 +1375,7 @@ func (c *VC) scanBoxed(fi *FuncInfo, body ast.Node, view infoView) (map[types.Ob
 							if _, rp := sig.Recv().Type().(*types.Pointer); rp {
 								if id := root(se.X); id != nil {
 									if v, ok := view.objOf(id).(*types.Var); ok && v.Parent() != v.Pkg().Scope() {
-										if _, isPtr := v.Type().Underlying().(*types.Pointer); !isPtr {
+										if _, isPtr := v.Type().Underlying().(*types.Pointer); !isPtr && !(ast.Unparen(se.X) == ast.Expr(id) && promotedViaPointer(v.Type(), sel.Index())) {
 											boxed[v] = true
 										}
 									}
@@ -2241,4 +2294,23 @@ func (c *VC) escapes(arr types.Object) string {
 		return true
 	})
 	return why
+}
+
+// promotedViaPointer: the method selected by path on a value of type t is promoted through an
+// embedded pointer field, so its receiver is that pointer and the value's address is not taken.
+func promotedViaPointer(t types.Type, path []int) bool {
+	for _, idx := range path[:len(path)-1] {
+		if p, ok := t.Underlying().(*types.Pointer); ok {
+			t = p.Elem()
+		}
+		st, ok := t.Underlying().(*types.Struct)
+		if !ok {
+			return false
+		}
+		t = st.Field(idx).Type()
+		if _, ok := t.Underlying().(*types.Pointer); ok {
+			return true
+		}
+	}
+	return false
 }
